@@ -11,7 +11,7 @@ CONSUMER_MODES = ["mf_q", "mf_dt", "mf_tr", "q_dt", "q_tr", "hex", "hex_free"]
 
 @st.composite
 def heat_net(draw, max_n=6, labels=True, feeders=None, allow_oos=False, max_sections=4, const_fluid=False,
-             allow_mesh=True, modes=None, allow_neg_q=True, allow_makeup=False):
+             allow_mesh=True, modes=None, allow_neg_q=True, allow_makeup=False, second_feeder=True):
     n = draw(st.integers(1, max_n))
     t0 = draw(fl(300.0, 330.0))          # start temperature of all junctions
     tf = draw(fl(340.0, 390.0))          # feed temperature
@@ -119,6 +119,19 @@ def heat_net(draw, max_n=6, labels=True, feeders=None, allow_oos=False, max_sect
                          "in_service": True})
         elements.append({"table": "ext_grid", "index": 1, "junction": n, "p_bar": p_flow - draw(fl(0.5, 3.0)),
                          "t_k": t0, "type": "p", "in_service": True})
+    feeder2 = None
+    if second_feeder and feeder == "cpp" and draw(st.integers(0, 3)) == 0:
+        # a second generator with its own feed temperature: a mass-flow pump in parallel to the main pump (same flow and
+        # return junction, same flow pressure), so that the flow junction of a pump is a mixing node (its temperature differs
+        # from either pump's t_flow_k). A decentral second pump further down the network is not generated: it fixes a second
+        # pressure, which over-determines loops whose consumers prescribe their mass flow (0 of 60 such nets converged).
+        feeder2 = "parallel"
+        k = 0
+        elements.append({"table": "circ_pump_mass", "index": 0, "return_junction": n + k, "flow_junction": k,
+                         "p_flow_bar": p_flow if k == 0 else p_flow * draw(fl(0.95, 1.0)),
+                         "mdot_flow_kg_per_s": max(tot, 0.05) * draw(fl(0.15, 0.5)),
+                         "t_flow_k": tf + draw(fl(-35.0, 25.0)), "type": draw(st.sampled_from(["pt", "auto"])),
+                         "in_service": True})
     if allow_makeup and feeder in ("cpp", "cpm") and draw(st.integers(0, 2)) == 0:
         # open loop: net consumption / injection inside the loop, balanced by a make-up ext grid that sits on the pump's
         # flow junction (same pressure as the pump fixes there) or on its return junction
@@ -145,7 +158,7 @@ def heat_net(draw, max_n=6, labels=True, feeders=None, allow_oos=False, max_sect
         fluid = {"const": {"name": "cw", "fluid_type": "liquid", "density": 985.0, "viscosity": 5e-4,
                            "heat_capacity": 4182.0, "molar_mass": 18.0}}
     rec = {"fluid": fluid, "sector": draw(st.sampled_from(["all", "all", "heat", "None"])), "junction": juncs,
-           "elements": elements, "meta": {"feeder": feeder, "n": n}}
+           "elements": elements, "meta": {"feeder": feeder, "n": n, "feeder2": feeder2}}
     if rec["sector"] == "heat" and any(e["table"] in ("ext_grid", "flow_control", "sink", "source") for e in elements):
         rec["sector"] = "all"
     if draw(st.booleans()):
